@@ -158,3 +158,23 @@ Definition alloc_limit (pver ebs : N) (bs : bytes) : N :=
     | None => DiscardChunk
     end
   end.
+
+(* ---------- several messages on one reader ----------
+   The peer loop calls ReadMessage again and again on the same connection; what one call leaves in
+   the reader is what the next one parses.  read_stream folds read_message over the stream (at most
+   fuel calls, stops when the reader is empty). *)
+Definition frame_rest (r : frame_res) : bytes :=
+  match r with FOk _ _ rest => rest | FErr _ rest => rest end.
+
+Fixpoint read_stream (fuel : nat) (pver net ebs : N) (bs : bytes) : list frame_res :=
+  match fuel with
+  | O => []
+  | S f =>
+    match bs with
+    | [] => []
+    | _ :: _ =>
+      let r := read_message pver net ebs bs in
+      r :: read_stream f pver net ebs (frame_rest r)
+    end
+  end.
+
